@@ -31,6 +31,17 @@ CHECKS = {
         design_ref="DESIGN.md section 5 C02",
         note="Scaled constants (CHUNK=20, BLOCK=48, FS_CACHE=5, REPAIR_CACHE=32); a seed-chosen subset of the model's "
              "scenarios; production constants in thorough windows; harness projection trusted."),
+    "C03": dict(
+        technique="TLA+ Tamper model (symbolic AEAD: a slot verifies iff it holds the original chunk of its index) checked by "
+                  "TLC (NoForeignName, UnalteredOpens); its edit behaviours concretised on real archives and read with the real reader",
+        text="TLC enumerates all sequences of up to two alterations (bit flip in data/tag of a chunk, swap, duplicate, drop, "
+             "splice from this or another archive, cut, header-field edit) and checks the design-level claims; each behaviour "
+             "is applied to real encrypted (and compressed+encrypted) archives, plus every single-bit flip of every byte and "
+             "every truncation; every byte the normal reader returns (also when reads are retried after an error) and "
+             "every name it lists is compared with the original, and archives left identical must open and read completely.",
+        design_ref="DESIGN.md section 5 C03",
+        note="Symbolic crypto in the model; model chunk positions mapped proportionally to real chunks; known finding D12 "
+             "(adversarial content + tail-chunk truncation forges a listing) carved out by signature."),
     "C04": dict(
         technique="TLA+ RepairSpec with damaged-chunk budgets (EncAuthStrict / EncAuthAsBuilt) evaluated by TLC on traces of "
                   "real repairs of truncated, bit-flipped and adversarially continued encrypted archives",
